@@ -106,9 +106,11 @@ pub fn run(ctx: &Ctx, rep: &mut Report) {
     let nstr = count_strings(4, maxlen);
     // count vectors with total <= 12 over 6 states: enumerate by mixed radix 13^6 (filter)
     let nvec: u64 = 13u64.pow(6);
+    // the bar only distinguishes three groups: finished / in flight / waiting
+    let ntriple: u64 = 131 * 131 * 131;
     let secs_set = [0usize, 2, 3, 99, 100, 999, 1000, 99_999, 1_000_000];
-    rep.max("max_exhaustive_domain_size", nstr + nvec);
-    input_loop(ctx, rep, nstr + nvec, |idx, ex, rep| {
+    rep.max("max_exhaustive_domain_size", nstr + nvec + ntriple);
+    input_loop(ctx, rep, nstr + nvec + ntriple, |idx, ex, rep| {
         if ex && idx < nstr {
             let Some(core) = nth_string(idx, &alphabet, maxlen) else { return };
             rep.count("exhaustive_strings", 1);
@@ -124,6 +126,19 @@ pub fn run(ctx: &Ctx, rep: &mut Report) {
                 for max in 0..len + 2 {
                     check_truncate(&msg, max, rep, idx);
                 }
+            }
+        } else if ex && idx >= nstr + nvec {
+            let mut v = idx - nstr - nvec;
+            let a = (v % 131) as usize;
+            v /= 131;
+            let b = (v % 131) as usize;
+            v /= 131;
+            let c = v as usize;
+            rep.count("exhaustive_count_triples", 1);
+            // spread the groups over their member states in two ways
+            check_bar([c, 0, 0, b, a, 0], rep, idx);
+            if a > 0 && b > 1 {
+                check_bar([c, 1, b - 2, 1, a - 1, 1], rep, idx);
             }
         } else if ex {
             let mut v = idx - nstr;
